@@ -375,7 +375,11 @@ func (pc *PredCompiler) term(env *predEnv, x ast.Expr) (string, error) {
 					if u, ok := ast.Unparen(def).(*ast.UnaryExpr); ok && u.Op == token.AND {
 						def = u.X
 					}
-					return pc.term(env, def)
+					// (a definition that is not itself a plain term, e.g. the result of a helper call, leaves the
+					// local an opaque term of its own)
+					if s, err := pc.term(env, def); err == nil {
+						return s, nil
+					}
 				}
 			}
 			if s, ok := pc.locals[o]; ok {
